@@ -163,9 +163,14 @@ func startBystander(f *Fixture, tag string) *bystander {
 				return
 			}
 			if !cl.WaitReplies(i+1, 6*time.Second) {
-				st := cl.Snapshot()
-				b.fail("bystander round trip %d got no reply within 6 s (eof=%v, malformed=%v)", i, st.EOF, st.BadResp)
-				return
+				// slow is not wrong: as long as the proxy lives and the connection is intact, keep waiting (bounded);
+				// only a reply that never comes is a disturbance
+				evidence.For("C12").Add("bystander_round_trips_slower_than_6s", 1)
+				if !cl.WaitReplies(i+1, 60*time.Second) {
+					st := cl.Snapshot()
+					b.fail("bystander round trip %d got no reply within 66 s (eof=%v, malformed=%v)", i, st.EOF, st.BadResp)
+					return
+				}
 			}
 			got := cl.Snapshot().Replies[i].Raw
 			want := refmodel.Bulk(fakecluster.EchoValue("set", key))
